@@ -433,6 +433,7 @@ func twin(t []string) core.Result {
 	}
 
 	rec := 0
+	var harLog *har.Logger
 	var modErr error
 	var finish func() // called after forwarding; sets rec
 	var mods struct {
@@ -442,6 +443,7 @@ func twin(t []string) core.Result {
 	switch logger {
 	case "har":
 		l := har.NewLogger()
+		harLog = l
 		l.SetOption(harOpt(true, o1), harOpt(false, o2))
 		mods.req, mods.res = l.ModifyRequest, l.ModifyResponse
 		finish = func() {
@@ -507,7 +509,9 @@ func twin(t []string) core.Result {
 		}
 	} else {
 		if logger == "har" {
-			mods.req(ctxReq) // the entry the response attaches to
+			// the entry the response would attach to exists whatever the skip flag says now
+			// (the flag may be set by a modifier that runs after the logger saw the request)
+			harLog.RecordRequest(ctx.ID(), ctxReq)
 		}
 		modErr = mods.res(resA)
 		werrA = resA.Write(&outA)
